@@ -53,7 +53,12 @@ def fit_cases(spec, tag=''):
     """-> (cases, info)"""
     o, X, y, kw = E.build(spec)
     exc = None
-    with MergeRecorder() as rec:
+    import contextlib
+    from .. import fakepool
+    # spec['schedule'] (completion order of the per-feature tasks) + params.n_jobs > 1: the fit runs through the
+    # schedule-driven stand-in for multiprocessing.Pool
+    pool = fakepool.patched(spec['schedule']) if spec.get('schedule') else contextlib.nullcontext()
+    with MergeRecorder() as rec, pool:
         try:
             o.fit(X, y) if y is not None else o.fit(X)
         except Exception as e:
@@ -239,4 +244,8 @@ def random_base_spec(seed):
     spec.pop('float_dtype', None)
     spec['params'].pop('str_nan', None)         # this driver projects with the default sentinels
     spec['params'].pop('str_default', None)
+    if len(spec['features']) >= 2 and cls != 'OrdinalDiscretizer' and rng.random() < 0.3:
+        # the same fit farmed out to worker processes, the last feature finishing first
+        spec['params']['n_jobs'] = 2
+        spec['schedule'] = list(reversed(list(spec['features'])))
     return spec
